@@ -98,7 +98,7 @@ class Interp(object):
       if node.id in ('True', 'False', 'None'):
         return Const({'True': True, 'False': False, 'None': None}[node.id])
       return Sym(node.id, node)
-    if isinstance(node, ast.Tuple):
+    if isinstance(node, (ast.Tuple, ast.List)):
       return tuple(self.value(e, st) for e in node.elts)
     if isinstance(node, ast.Call):
       h = self.hooks.get('call')
